@@ -46,6 +46,10 @@ type Program struct {
 	inlined    map[string]bool
 	usedContracts map[string]bool
 	noContract    map[string]bool
+	acqMemo       map[*types.Func]map[string]bool
+	replayPlans   map[string]*replayPlan // report name -> bound replay template
+	overlayBytes  map[string][]byte      // the quic overlay (real path -> stripped content)
+	verifDir      string
 	overlayNote string
 }
 
@@ -55,7 +59,7 @@ func loadProgram(repo string) (*Program, error) {
 	p := &Program{repo: repo, byPath: map[string]*packages.Package{}, decls: map[*types.Func]*ast.FuncDecl{}, declPkg: map[*types.Func]*packages.Package{},
 		globals: map[*types.Var]*globalInfo{}, mutatedGlobals: map[types.Object]bool{}, boxCache: map[ast.Node]map[types.Object]bool{},
 		tmpInit: map[*Exec]map[string]Val{}, tmpGlobals: map[*Exec]map[string]Val{}, litVals: map[string]*ast.FuncLit{}, interior: map[string]*lval{},
-		dropped: map[string]int{}, inlined: map[string]bool{}, usedContracts: map[string]bool{}, noContract: map[string]bool{}}
+		dropped: map[string]int{}, inlined: map[string]bool{}, usedContracts: map[string]bool{}, noContract: map[string]bool{}, replayPlans: map[string]*replayPlan{}}
 	ov := map[string][]byte{}
 	dropped := 0
 	for _, f := range overlayFiles {
@@ -76,6 +80,7 @@ func loadProgram(repo string) (*Program, error) {
 		}
 		ov[path] = bytes.Join(out, []byte("\n"))
 	}
+	p.overlayBytes = ov
 	p.overlayNote = fmt.Sprintf("quic overlay: %d lines mentioning libp2pquic replaced by comments in %v", dropped, overlayFiles)
 	p.fset = token.NewFileSet()
 	cfg := &packages.Config{
